@@ -190,12 +190,13 @@ func runExecutorScript(t fataler, check string, taskMode bool, workers int, ops 
 			tex *timed.TaskExecutor[string]
 			sch scheduler
 		)
+		var probeEx *timed.Executor
 		if taskMode {
 			tex = timed.NewTaskExecutor[string](workers)
-			sch = tex
+			sch, probeEx = tex, tex.Executor
 		} else {
 			ex = timed.NewExecutor(workers)
-			sch = ex
+			sch, probeEx = ex, ex
 		}
 		var (
 			tasks            []*xtask
@@ -205,7 +206,7 @@ func runExecutorScript(t fataler, check string, taskMode bool, workers int, ops 
 			shutdownFlags    int
 			shutdownStart    time.Time
 			shutdownRet      = make(chan time.Time, 2)
-			shutdownReturned bool // a Shutdown call has returned to the controller (DontWaitForShutdown)
+			shutdownReturned bool // the shutdown is in effect: a DontWaitForShutdown call returned or the probe was refused
 			waitingPending   int  // waiting Shutdown calls in flight
 			lastDue          = time.Now()
 		)
@@ -331,9 +332,22 @@ func runExecutorScript(t fataler, check string, taskMode bool, workers int, ops 
 						sch.Shutdown(flags...)
 						shutdownRet <- time.Now()
 					}()
-					// let the shutdown take effect before the script continues (steering only; operations issued
-					// while it is in flight are judged by what they returned)
-					ctl.Settle(200 * time.Microsecond)
+					// The script continues only once the shutdown is in effect, so that every later scheduling call is
+					// ordered after it (a scheduling call that overlaps Shutdown is outside the generated domain). The
+					// probe is a far-future no-op that is cancelled at once; nil means "executor is shut down".
+					deadline := time.Now().Add(ctl.HangTimeout)
+					for {
+						probe := probeEx.ExecuteAt(func() {}, time.Now().Add(time.Hour))
+						if probe == nil {
+							break
+						}
+						probe.Cancel()
+						if time.Now().After(deadline) {
+							return "hang: Shutdown called in its own goroutine did not take effect within " + ctl.HangTimeout.String() + "\n" + ctl.Dump()
+						}
+						time.Sleep(50 * time.Microsecond)
+					}
+					shutdownReturned = true
 				}
 			}
 		}
